@@ -53,6 +53,8 @@ const prelude = `(set-option :produce-models true)
 (assert (forall ((s Str)) (! (= (Str_of (Str_bytes s)) s) :pattern ((Str_bytes s)))))
 (assert (forall ((s Str)) (! (= (Bytes_len (Str_bytes s)) (Str_len s)) :pattern ((Str_bytes s)))))
 (assert (forall ((b Bytes)) (! (>= (Bytes_len b) 0) :pattern ((Bytes_len b)))))
+(declare-fun sidx (Int Int) Int)
+(assert (forall ((o Int) (i Int)) (! (= (sidx o i) (+ o i)) :pattern ((sidx o i)))))
 (declare-fun go_div (Int Int) Int)
 (declare-fun go_mod (Int Int) Int)
 (declare-fun bit_and (Int Int) Int)
